@@ -13,6 +13,12 @@ out = '/tmp/wt/out-%s' % pid
 import os
 taken = json.load(open("/tmp/taken.json")).get(pid, []) if os.path.exists("/tmp/taken.json") else []
 note = ("Other testers have already delivered changes for this property in these places; pick DIFFERENT functions/mechanisms: " + "; ".join(taken) + ". Never use `git stash` (the stash is shared between worktrees): to get back to a clean tree run `git checkout -- .` inside your own worktree after saving your diff to a file.") 
+FLAVOURS = {
+ 'subtle': "Prefer subtle semantic changes (a sign, an index, a comparison direction, a dropped cache invalidation, a wrong operand, a swapped argument, an off-by-one, a missing case) in code the property depends on.",
+ 'added': "This round asks for ADDED or RESTRUCTURED code rather than one-token edits: a new fast path, a new helper, a cache, a rewritten loop, a 'simplification' -- the kind of change a maintainer would actually submit -- that is wrong for a class of inputs.",
+ 'boundary': "This round asks for changes whose fault shows only at BOUNDARIES or in INTERACTIONS: parameters exactly 0 or 1, empty or single-segment paths, closed paths, zero-length or degenerate segments, repeated or coincident points, negative or out-of-range indices, keyword versus positional arguments, rarely combined options, ints versus floats versus numpy scalars, or two public calls in sequence where the second sees state left by the first. The change itself may be a small edit or added code, but ordinary interior inputs must behave exactly as before.",
+}
+flavour = FLAVOURS[os.environ.get('FLAVOUR', 'subtle')]
 print(f"""You are helping test a verification effort for the Python library svgpathtools (pure-Python SVG path geometry).
 A scratch git worktree of the library is at {wt} (package directory {wt}/svgpathtools, tests in {wt}/test).
 Work ONLY inside {wt} and {out}. Never read or write /repo or /verif (they are off limits), and do not create other git worktrees.
@@ -34,7 +40,7 @@ YOUR TASK: produce TWO different, independent, realistic changes (mutations/bugs
  (b) still imports fine and still passes the existing test suite exactly at baseline (91 passed, only test_group_transform failing),
  (c) looks like a plausible mistake or plausible 'refactoring gone wrong' a developer could make (not sabotage like 'if x == 12345'), and
  (d) needs something SPECIFIC to manifest: an unusual input, a particular option combination, a multi-step sequence of operations, a rarely taken branch, or two cooperating sites that each look fine alone. It should NOT be exposed at once by ordinary use.
-Prefer subtle semantic changes (a sign, an index, a comparison direction, a dropped cache invalidation, a wrong operand, a swapped argument, an off-by-one, a missing case) in code the property depends on. The two changes should be in different functions/mechanisms.
+{flavour} The two changes should be in different functions/mechanisms.
 
 For EACH change k in (1, 2) deliver in {out}/:
  - {out}/m<k>/patch.diff : the change as a unified diff produced by `git -C {wt} diff` (relative to the worktree HEAD; must apply with `git apply` at the repository root). Each patch must be standalone (made from a clean tree: use `git -C {wt} checkout -- .` between the two).
